@@ -312,8 +312,16 @@ func (so SortOrder) RequiresDocID() bool {
 
 func (so SortOrder) RequiredFields() []string {
 	var rv []string
+	// a field that several sort keys use is required only once; listing
+	// it again makes readers visit its doc values once per listing
+	seen := make(map[string]struct{})
 	for _, soi := range so {
-		rv = append(rv, soi.RequiresFields()...)
+		for _, field := range soi.RequiresFields() {
+			if _, ok := seen[field]; !ok {
+				seen[field] = struct{}{}
+				rv = append(rv, field)
+			}
+		}
 	}
 	return rv
 }
